@@ -1039,6 +1039,22 @@ func c20TV(d *vCtx) error {
 						r.advance(time.Duration(cs%3) * 100 * time.Millisecond)
 						r.done()
 					}
+					// a second file of the same batch after a resumed one: it starts from offset 0 again
+					if !r.dead && pre > 0 {
+						size2 := int64(1000 + cs%977)
+						r.setName(c20Name(c20Families[(cs+3)%len(c20Families)], (cs+5)%37, cs+1))
+						r.size(size2)
+						for _, v := range []int64{0, size2 / 10, size2 / 2, size2} {
+							if r.dead {
+								break
+							}
+							r.advance(250 * time.Millisecond)
+							r.step(v)
+						}
+						if !r.dead {
+							r.done()
+						}
+					}
 					st.add(r)
 				}
 			}
